@@ -215,8 +215,10 @@ func (c *Ctx) ruleSQLAgreement(rule string, tables map[string]bool) {
 				// form the rules read).
 				R.Undecided(rule, fk, st.SQL.Role()+" arguments match columns", pos, "argument i is the value of column i, row by row", "the INSERT's arguments are assembled at run time (multi-row form): row/column pairing is not decided")
 			} else if st.Dynamic {
-				// IN-list built at run time: the list is the method's list parameter, element-wise
-				R.Trivial(rule, fk, st.SQL.Role()+" IN-list arguments", pos, "arguments are the elements of the list parameter")
+				// IN-list built at run time: the bound values are exactly the elements of the storage method's
+				// whole list parameter (a look-up that covers only part of the list reports the rest as absent)
+				okIn, whyIn := c.inListCoversParam(st)
+				R.Check(rule, fk, st.SQL.Role()+" IN-list arguments", pos, okIn, "the IN-list binds every element of the method's list parameter, unmodified", whyIn)
 			}
 			// scan destinations
 			if st.Scan != nil && st.SQL.Verb == "SELECT" {
@@ -400,4 +402,48 @@ func (c *Ctx) scanLocalsCopied(rule string, method string, pairs map[string]stri
 			R.Check(rule, fk, "nullable "+col+" copied into "+field, c.P.Pos(f.Pos()), found, "the nullable column scanned into "+col+" is copied into the result's "+field, "no copy found")
 		}
 	}
+}
+
+// inListCoversParam: the variadic arguments of a run-time built IN-list statement are map(L => elem(L)) with L a
+// list parameter of the storage method; when the statement sits in a helper that is new on this tree, L is the
+// helper's parameter and every call site hands it the method's whole list (or the chunks of slices.Chunk over it).
+func (c *Ctx) inListCoversParam(st *StmtSite) (bool, string) {
+	d := c.P.Describe(st.Exec)
+	if len(d.Args) == 0 {
+		return false, "statement without arguments"
+	}
+	o := c.P.OriginsOf(st.Fn)
+	a := o.Of(d.Args[len(d.Args)-1])
+	if a.K != "map" || a.Args[1].String() != "elem("+a.Args[0].String()+")" || !strings.HasPrefix(a.Args[0].String(), "P:") {
+		return false, "bound values are " + short(a.String(), 140) + " (expected the elements of a list parameter, one to one)"
+	}
+	if !c.P.IsNewFunc(st.Fn) {
+		return true, ""
+	}
+	// helper: follow the list parameter to the call sites
+	pname := strings.TrimPrefix(a.Args[0].String(), "P:")
+	pi := -1
+	for i, p := range st.Fn.Params {
+		if p.Name() == pname {
+			pi = i
+		}
+	}
+	sites := c.callersOf(st.Fn)
+	if pi < 0 || len(sites) == 0 {
+		return false, "helper " + st.Fn.Name() + ": list parameter or call sites not found"
+	}
+	for _, site := range sites {
+		caller := site.Parent()
+		args := site.Common().Args
+		if pi >= len(args) {
+			return false, "call of " + st.Fn.Name() + " without the list argument"
+		}
+		e := c.P.OriginsOf(caller).Of(args[pi])
+		whole := e.K == "param" || (strings.HasPrefix(e.String(), "P:") && !strings.ContainsAny(e.String(), "[("))
+		chunk := e.K == "elem" && isCall(e.Args[0], "slices.Chunk") && strings.HasPrefix(arg(e.Args[0], 0).String(), "P:")
+		if !(whole || chunk) || c.P.IsNewFunc(caller) {
+			return false, "helper " + st.Fn.Name() + " is called at " + c.P.InstrPos(site) + " with " + short(e.String(), 100) + ": that the calls together cover the method's whole list is not decided"
+		}
+	}
+	return true, ""
 }
